@@ -514,8 +514,13 @@ func c15R3(h H) {
 	if rp := h.fn("R3", hs, "redirPlaintextHost"); rp != nil {
 		cfgT := rp.Params[0].Type().(*types.Pointer).Elem()
 		bad, nrun := "", 0
-		for _, sitePort := range []string{"443", "8443"} {
-			for _, hostKind := range []int{0, 1, 2, 3} {
+		// "": no port of its own, managed certificate (it will be served on 443); "manual": no port of its own but its
+		// own certificate (it stays on the default port, 2015)
+		for _, sitePort := range []string{"443", "8443", "", "manual"} {
+			for _, hostKind := range []int{0, 1, 2, 3, 4} {
+				if hostKind == 4 && sitePort != "443" {
+					continue
+				}
 				// 0: a name; 1: a name with port; 2: an IPv6 literal with port; 3: an IPv6 literal without port
 				hostHasPort := hostKind == 1 || hostKind == 2
 				var redirURL aval
@@ -525,13 +530,18 @@ func c15R3(h H) {
 					"HTTPSPort": {name: "HTTPSPort", typ: types.Typ[types.Int], f: map[string]aval{"": aint(443)}},
 					"HTTPPort":  {name: "HTTPPort", typ: types.Typ[types.Int], f: map[string]aval{"": aint(80)}},
 					"Quiet":     {name: "Quiet", typ: types.Typ[types.Bool], f: map[string]aval{"": abool(true)}},
+					"Port":      {name: "Port", typ: types.Typ[types.String], f: map[string]aval{"": astr("2015")}},
 				}}
 				env.ext = func(callee string, args []aval) (aval, bool) {
 					switch {
 					case strings.HasSuffix(callee, "casket.Started"):
 						return abool(true), true
 					case callee == "(*net/url.URL).RequestURI":
-						return symLabel("request-uri"), true
+						if hostKind == 4 {
+							// the request target `http:@evil.org/x` is kept opaque: no leading slash
+							return astr("@evil.org/x"), true
+						}
+						return mkStr([]atom{{lit: "/"}, {sym: "request-uri"}}), true
 					case callee == "invoke:Header":
 						return amap{&amapData{vals: map[string]aval{}, keys: map[string]aval{}, typ: underlying(types.Unalias(h.p.typeByName("net/http", "Header"))).(*types.Map)}}, true
 					case callee == "net/http.Redirect":
@@ -544,13 +554,16 @@ func c15R3(h H) {
 					}
 					return nil, false
 				}
-				tlsObj := &aobj{name: "tls", typ: types.Typ[types.Int], f: map[string]aval{}, in: func(o *aobj, path string, t types.Type) aval { return aunk{"tls field " + path} }}
+				tlsObj := &aobj{name: "tls", typ: types.Typ[types.Int], f: map[string]aval{"Manual": abool(sitePort == "manual"), "SelfSigned": abool(false), "Manager": anil{}}, in: func(o *aobj, path string, t types.Type) aval { return aunk{"tls field " + path} }}
 				cfg := &aobj{name: "site", typ: cfgT, f: map[string]aval{}}
 				cfg.in = func(o *aobj, path string, t types.Type) aval {
 					switch path {
 					case "Addr.Host":
 						return symLabel("sitehost")
 					case "Addr.Port":
+						if sitePort == "manual" {
+							return astr("")
+						}
 						return astr(sitePort)
 					case "TLS":
 						if p, ok := underlying(t).(*types.Pointer); ok {
@@ -561,8 +574,14 @@ func c15R3(h H) {
 					return aunk{"site field " + path}
 				}
 				desc := fmt.Sprintf("site on port %s, request Host with port=%v", sitePort, hostHasPort)
-				if hostKind >= 2 {
+				if hostKind == 2 || hostKind == 3 {
 					desc += " (an IPv6 literal: [2001:db8::1])"
+				}
+				if hostKind == 4 {
+					desc += ", opaque request target http:@evil.org/x"
+				}
+				if sitePort == "manual" {
+					desc = "site with its own certificate and no port (served on the default port 2015), " + desc
 				}
 				res, und := env.run(rp, []aval{aptr{cfg, ""}})
 				nrun++
@@ -620,13 +639,21 @@ func c15R3(h H) {
 				}
 				_, und = env.runFunc(handler, []aval{aiface{aptr{&aobj{name: "writer", typ: types.Typ[types.Int], f: map[string]aval{}}, ""}, types.Typ[types.Int]}, aptr{req, ""}})
 				want := "\"https://‹reqhost›"
-				if hostKind >= 2 {
+				if hostKind == 2 || hostKind == 3 {
 					want = "\"https://[2001:db8::1]"
 				}
-				if sitePort != "443" {
+				switch sitePort {
+				case "443", "":
+				case "manual":
+					want += ":2015"
+				default:
 					want += ":" + sitePort
 				}
-				want += "‹request-uri›\""
+				if hostKind == 4 {
+					want += "/@evil.org/x\""
+				} else {
+					want += "/‹request-uri›\""
+				}
 				switch {
 				case und != "":
 					bad = desc + ": handler undecided — " + und
